@@ -214,6 +214,13 @@ fn gen(tier: &str, seed: u64, out: &mut dyn FnMut(String)) {
     // ---- one-argument operations: every string up to length 4 (quick: 3)
     let uni: Vec<String> = strings_upto(&ALPHA, if thorough { 4 } else { 3 }).iter().map(|s| hex(s)).collect();
     for (k, op) in UNARY_OPS.iter().enumerate() { pack(&[uni.clone()], k, out, &|a| format!("{op} {}", a[0])); }
+    {   // every ASCII code point, alone and after a letter: the borders of the case / class tables
+        let ascii: Vec<String> = (0u8..128).flat_map(|b| { let c = b as char; [hex(&c.to_string()), hex(&format!("a{c}")), hex(&format!("{c}Z"))] }).collect();
+        for (k, op) in UNARY_OPS.iter().enumerate() { pack(&[ascii.clone()], k + 2, out, &|a| format!("{op} {}", a[0])); }
+        pack(&[ascii.clone()], 0, out, &|a| format!("splitlines {} 1:1", a[0]));
+        pack(&[ascii.clone()], 1, out, &|a| format!("strip {} none", a[0]));
+        pack(&[ascii.clone()], 1, out, &|a| format!("translate {} 4061,5b62,6063,7b64,2f65,3a66", a[0]));
+    }
     pack(&[uni.clone()], 3, out, &|a| format!("splitlines {} none", a[0]));
     {   // keep_ends as a broadcast array: alternate per position; and as [1]-shaped scalar
         let keep: Vec<String> = (0..uni.len()).map(|i| if (i / 3) % 2 == 0 { "1".to_string() } else { "0".to_string() }).collect();
@@ -249,7 +256,8 @@ fn gen(tier: &str, seed: u64, out: &mut dyn FnMut(String)) {
         let num: Vec<String> = strings_upto(&['0', '1', '-', '5'], if thorough { 4 } else { 3 }).into_iter()
             .filter(|s| { let b = s.strip_prefix('-').unwrap_or(s); !b.is_empty() && b.bytes().all(|c| c.is_ascii_digit()) }).map(|s| hex(&s)).collect();
         for w in 0..7usize { pack(&[num.clone()], w, out, &|a| format!("zfill {} {w}", a[0])); }
-        for lit in ["1e5", "1E-2", ".5", "5.", "+5", "-.5e+1", "inf", "-Infinity", "NaN", "+nan", "1e", ".", "e5", "1.2.3", "", "-", "--1", " 1", "1 ", "0x1", "infinit", "1e+", "+-1", "1_0"] {
+        for lit in ["1e5", "1E-2", ".5", "5.", "+5", "-.5e+1", "inf", "-Infinity", "NaN", "+nan", "1e", ".", "e5", "1.2.3", "", "-", "--1", " 1", "1 ", "0x1", "infinit", "1e+", "+-1", "1_0",
+            "infinity", "INF", "iNf", "-nan", "+inf", "1e5e", "1e-", "e", "1e1.5", "..", ".e1", "1.e1", "1.e", "  ", "00", "-0", "1E+05", "in", "na", "infinityy", "+", "+.", "1+1", "1e 5"] {
             out(format!("zfill 2:{},{} 6", hex("12"), hex(lit)));
             out(format!("zfill 1:{} 9", hex(lit)));
         }
